@@ -5,7 +5,7 @@ import SqlProofs.CteShape.Main
 `cteTable_ok` decides, by kernel evaluation of the whole model pipeline (regex table → lexer → 25 grouping passes → `getType`), that
 `Statement.get_type()` is the DML keyword following the CTE definitions on 192 WITH statements (1–3 definitions, column lists,
 WITH RECURSIVE, comments between the definitions and before the DML keyword, AS MATERIALIZED, seven DML verbs, three statements without a
-DML keyword → UNKNOWN) and is NOT on the 4 pinned `AS NOT MATERIALIZED` statements.  About 40 min CPU (20 lemmas of ten statements, 5–6 GB
+DML keyword → UNKNOWN) and is NOT on the 4 pinned `AS NOT MATERIALIZED` statements.  About 40 min CPU (40 lemmas of five statements, about 5 GB
 each, three import lanes), thorough tier only; the quick tier evaluates the same table with the compiled driver (`ctecheck`) and proves the
 table-independent core `getType_respell` / `cte_get_type_of_check` (SqlProofs/CteShape/Core.lean).
 -/
